@@ -314,13 +314,14 @@ fn cmd_run(a: &Args) -> Result<i32, String> {
     std::fs::write(&evpath, serde_json::to_string_pretty(&evidence).unwrap()).map_err(|e| format!("{}: {}", evpath, e))?;
 
     println!(
-        "simio: {} runs in {:.1}s ({} runs/h), {} I/O events, {} distinct non-trivial schedules, {} clauses violated",
+        "simio: {} runs in {:.1}s ({} runs/h), {} I/O events, {} distinct non-trivial schedules, {} clauses violated ({} of them listed known findings)",
         agg.runs,
         wall,
         if wall > 0.0 { (agg.runs as f64 / wall * 3600.0) as u64 } else { 0 },
         agg.events,
         agg.sigs.len(),
-        agg.violations.len()
+        agg.violations.len(),
+        known_lines.len()
     );
     for l in &known_lines {
         println!("{}", l);
